@@ -98,6 +98,14 @@ def default_wall(inset=0.2, slanted=False, mirror=False, clockwise=False):
         w = [(rmin, zmin + 0.10), (rmin, 0.0), (rmin, zmax), (1.5, zmax + 0.04), (rmax, zmax), (rmax, 0.1), (rmax, zmin + 0.06), (1.5, zmin + 0.03)]
     else:
         w = [(rmin, zmin), (rmin, zmax), (rmax, zmax), (rmax, zmin)]
+    if slanted == "many":
+        # the slanted wall with every edge cut into five collinear pieces (many vertices)
+        w2 = []
+        for k in range(len(w)):
+            a, b = w[k], w[(k + 1) % len(w)]
+            for j in range(5):
+                w2.append((a[0] + (b[0] - a[0]) * j / 5.0, a[1] + (b[1] - a[1]) * j / 5.0))
+        w = w2
     if mirror:
         w = [(r, -z) for r, z in w][::-1]
     if clockwise != False:  # noqa: E712  (the list above is clockwise: up the inboard side first)
